@@ -172,18 +172,9 @@ Failing == IF A.name = "Stabilized" THEN {nm \in InvSel \cap {"C15_Converged", "
 
 \* Witness predicates of known findings (known_findings.json): a violation whose state satisfies
 \* one is tagged, so that the orchestrator reports it as KNOWN-FINDING instead of VIOLATION.
-\* KF-F7: mixed configuration. A member with neither PreVote nor CheckQuorum that campaigned its
-\*        way to a higher term while cut off cannot rejoin a leader that runs CheckQuorum: the leader's
-\*        lease ignores its vote requests, and the member ignores the lower-term appends/heartbeats
-\*        instead of answering them (raft.go: the MsgAppResp that frees a stuck node is only sent
-\*        when the *receiver* has checkQuorum or preVote).  Witness: after the fault-free suffix a
-\*        leader with CheckQuorum coexists with such a member at a higher term.
-KFTags(nm) ==
-  IF nm = "C15_Converged"
-     /\ \E ld \in Node : /\ Up(ld) /\ node[ld].role = "L" /\ Cfg(ld).checkQuorum
-                         /\ \E j \in Node : /\ Up(j) /\ j \in Members(node[ld].cfg) /\ node[j].term > node[ld].term
-                                            /\ ~Cfg(j).preVote /\ ~Cfg(j).checkQuorum
-  THEN <<"KF-F7">> ELSE <<>>
+\* (No finding is open at present: F7, the last one, was repaired; the witness that used to tag it is kept
+\* as a comment in DESIGN.md 13.4.  A tag is only ever honoured for an entry with status "known".)
+KFTags(nm) == <<>>
 
 \* ---- Conform mode: the specification's own transition, applied to the observed pre-state,
 \* must yield the observed post-state (node record, disk record, return value, Ready contents).
